@@ -144,6 +144,10 @@ package config
 
 //@ pred K8sAll(outs []htypes.OnKubernetesEventConfig, ins []OnKubernetesEventConfigV1) := len(outs) == len(ins) && forall(i, 0, len(outs), K8sOK(outs[i], ins[i]))
 
+//@ pred SchOK(out htypes.ScheduleConfig, in ScheduleConfigV1) := out.BindingName == ite(in.Name != "", in.Name, "schedule") && out.Queue == ite(in.Queue == "", "main", in.Queue)
+//@     && out.AllowFailure == in.AllowFailure && out.ScheduleEntry.Crontab == in.Crontab && out.Group == in.Group
+//@ pred SchAll(outs []htypes.ScheduleConfig, ins []ScheduleConfigV1) := len(outs) == len(ins) && forall(i, 0, len(outs), SchOK(outs[i], ins[i]))
+
 // C10: a valid v1 document yields one effective kubernetes binding per declared one, in the
 // declared order, with the documented defaults.
 //@ func (*HookConfigV1).ConvertAndCheck
@@ -152,6 +156,8 @@ package config
 //@   modifies fields(c), allelems(htypes.OnKubernetesEventConfig), allelems(htypes.ScheduleConfig), allelems(htypes.ValidatingConfig), allelems(htypes.MutatingConfig), allelems(htypes.ConversionConfig), allelems(string), allelems(v1.ValidatingWebhook)
 //@   ensures [kubernetes/count]    result == nil ==> len(c.OnKubernetesEvents) == len(cv1.OnKubernetesEvent)
 //@   ensures [kubernetes/defaults] result == nil ==> forall(i, 0, len(c.OnKubernetesEvents), K8sOK(c.OnKubernetesEvents[i], cv1.OnKubernetesEvent[i]))
+//@   ensures [schedules/count]    result == nil ==> len(c.Schedules) == len(cv1.Schedule)
+//@   ensures [schedules/defaults] result == nil ==> forall(i, 0, len(c.Schedules), SchOK(c.Schedules[i], cv1.Schedule[i]))
 //@   loop 1
 //@     invariant 0 <= iter() && iter() <= len(cv1.OnKubernetesEvent) && len(c.OnKubernetesEvents) == iter()
 //@     invariant forall(i, 0, iter(), K8sOK(c.OnKubernetesEvents[i], cv1.OnKubernetesEvent[i]))
@@ -159,25 +165,39 @@ package config
 //@     invariant [k8s] K8sAll(c.OnKubernetesEvents, cv1.OnKubernetesEvent)
 //@   loop 3
 //@     invariant [k8s] K8sAll(c.OnKubernetesEvents, cv1.OnKubernetesEvent)
+//@     invariant 0 <= iter() && iter() <= len(cv1.Schedule) && len(c.Schedules) == iter()
+//@     invariant forall(i, 0, iter(), SchOK(c.Schedules[i], cv1.Schedule[i]))
 //@   loop 4
 //@     invariant [k8s] K8sAll(c.OnKubernetesEvents, cv1.OnKubernetesEvent)
+//@     invariant [sch] SchAll(c.Schedules, cv1.Schedule)
 //@   loop 5
 //@     invariant [k8s] K8sAll(c.OnKubernetesEvents, cv1.OnKubernetesEvent)
+//@     invariant [sch] SchAll(c.Schedules, cv1.Schedule)
 //@   loop 6
 //@     invariant [k8s] K8sAll(c.OnKubernetesEvents, cv1.OnKubernetesEvent)
+//@     invariant [sch] SchAll(c.Schedules, cv1.Schedule)
 //@   loop 7
 //@     invariant [k8s] K8sAll(c.OnKubernetesEvents, cv1.OnKubernetesEvent)
+//@     invariant [sch] SchAll(c.Schedules, cv1.Schedule)
 //@   loop 8
 //@     invariant [k8s] K8sAll(c.OnKubernetesEvents, cv1.OnKubernetesEvent)
+//@     invariant [sch] SchAll(c.Schedules, cv1.Schedule)
 //@   loop 9
 //@     invariant [k8s] K8sAll(c.OnKubernetesEvents, cv1.OnKubernetesEvent)
+//@     invariant [sch] SchAll(c.Schedules, cv1.Schedule)
 //@     invariant 0 <= iter() && iter() <= len(c.OnKubernetesEvents) && len(newKubeEvents) == iter() && fresh(newKubeEvents) && base(newKubeEvents) != base(c.OnKubernetesEvents)
 //@     invariant forall(i, 0, iter(), K8sOK(newKubeEvents[i], cv1.OnKubernetesEvent[i]))
 //@   loop 10
 //@     invariant [k8s] K8sAll(c.OnKubernetesEvents, cv1.OnKubernetesEvent)
+//@     invariant [sch] SchAll(c.Schedules, cv1.Schedule)
+//@     invariant 0 <= iter() && iter() <= len(c.Schedules) && len(newSchedules) == iter() && fresh(newSchedules) && base(newSchedules) != base(c.Schedules)
+//@     invariant forall(i, 0, iter(), SchOK(newSchedules[i], cv1.Schedule[i]))
 //@   loop 11
 //@     invariant [k8s] K8sAll(c.OnKubernetesEvents, cv1.OnKubernetesEvent)
+//@     invariant [sch] SchAll(c.Schedules, cv1.Schedule)
 //@   loop 12
 //@     invariant [k8s] K8sAll(c.OnKubernetesEvents, cv1.OnKubernetesEvent)
+//@     invariant [sch] SchAll(c.Schedules, cv1.Schedule)
 //@   loop 13
 //@     invariant [k8s] K8sAll(c.OnKubernetesEvents, cv1.OnKubernetesEvent)
+//@     invariant [sch] SchAll(c.Schedules, cv1.Schedule)
